@@ -10,6 +10,9 @@ HOLDER = {}
 
 def build(sc):
   from vf import bmc_models as M
+  if sc.get('kind') == 'registry':
+    sysm = M.build_registry_system(tuple(sc['ops']), sc['init'])
+    return sysm, M.registry_drivers(tuple(sc['ops']))
   if sc.get('kind') == 'ownership':
     sysm = M.build_ownership_system(sc.get('variant', 'nonblocking'), sc.get('nworkers', 1))
     v = sc.get('variant', 'nonblocking')
@@ -63,6 +66,8 @@ def predicates(sc, sysm):
   import z3
   from vf import bmc_models as M
   pred = sc.get('pred', 'c04')
+  if pred == 'c20reg':
+    return (lambda enc, st: z3.Not(M.c20_registry_ok(enc, sysm, st))), (lambda logs, params: M.c20_registry_ok_py(sysm.meta, globals().get('_LAST_HOLDER') or {}, params))
   if pred == 'c20':
     return (lambda enc, st: z3.Not(M.c20_ok(enc, sysm, st))), (lambda logs, params: M.c20_ok_py(logs, globals().get('_LAST_HOLDER') or {}))
   if pred == 'c15':
@@ -102,7 +107,7 @@ def worker(job):
              encoded_lines=len(sysm.meta['encoded_lines']), dropped_logging_lines=len(sysm.meta['dropped_lines']), bmc_wall=round(time.time() - t0, 1))
   out['threads'] = [p.name for p in sysm.threads]
   if r.trace is not None:
-    glue = {'mux': M.multiplex_threads, 'prefetch': M.prefetch_threads, 'ownership': M.ownership_threads}.get(sc.get('kind'), M.queue_threads)
+    glue = {'mux': M.multiplex_threads, 'prefetch': M.prefetch_threads, 'ownership': M.ownership_threads, 'registry': M.registry_threads}.get(sc.get('kind'), M.queue_threads)
     make, logs, holder = glue(sysm, r.enc, r.trace, drivers)
     HOLDER.clear(); HOLDER.update(holder) if isinstance(holder, dict) else None
     globals()['_LAST_HOLDER'] = holder
@@ -114,9 +119,13 @@ def worker(job):
       if r.verdict == 'exhausted':
         # conformance: a complete passing execution chosen by the solver must behave identically on the real code
         same = all(list(map(tuple, r.trace['logs'][k])) == real_logs[k] for k in real_logs) and not rr.get('blocked')
+        why = ''
+        if same and sc.get('kind') in ('registry', 'ownership'):
+          # the end state lives in the objects, not in the logs: the python twin of the predicate must accept it
+          same, why = ok_py(logs, r.trace['params'])
         out['conformance'] = bool(same)
         if not same:
-          out['conformance_detail'] = f"model logs {r.trace['logs']} real logs {real_logs} blocked {rr.get('blocked')}"
+          out['conformance_detail'] = f"model logs {r.trace['logs']} real logs {real_logs} blocked {rr.get('blocked')} {why}"
       elif r.verdict == 'deadlock':
         blocked_model = sorted(n for n, f in r.trace['final'].items() if not f['halted'])
         out['reproduced'] = sorted(rr.get('blocked') or []) == blocked_model and bool(blocked_model)
@@ -204,7 +213,7 @@ def replay(data):
   enc = B.Encoder(sysm)
   enc._ppset = [set(p) for p in enc.pp]
   trace = data['trace']
-  glue = {'mux': M.multiplex_threads, 'prefetch': M.prefetch_threads, 'ownership': M.ownership_threads}.get(sc.get('kind'), M.queue_threads)
+  glue = {'mux': M.multiplex_threads, 'prefetch': M.prefetch_threads, 'ownership': M.ownership_threads, 'registry': M.registry_threads}.get(sc.get('kind'), M.queue_threads)
   make, logs, holder = glue(sysm, enc, trace, drivers)
   globals()['_LAST_HOLDER'] = holder
   try:
